@@ -549,6 +549,9 @@ pub fn run(run: &Run) {
     des_streams.extend(foreign_streams(thorough));
     des_streams.extend(invalid_streams());
     run.set("deserializer_streams", json!(des_streams.len()));
+    for i in [des_streams.len() / 3, des_streams.len() - 1] {
+        run.sample(json!({"family": "deserializer", "stream_description": des_streams[i].0, "stream": hex(&des_streams[i].1), "explored": "every call length from every offset"}));
+    }
     des_streams.par_iter().for_each(|(name, bytes)| {
         let init = DeCons { de: ChunkDeserializer::new() };
         let full = bytes.len() <= 400;
@@ -571,6 +574,9 @@ pub fn run(run: &Run) {
         }
     }
     run.set("session_tail_streams", json!(jobs.len()));
+    for i in [0, jobs.len() - 1] {
+        run.sample(json!({"family": jobs[i].0, "stream_description": jobs[i].1, "stream": hex(&jobs[i].2), "explored": "every call length from every offset"}));
+    }
     jobs.par_iter().for_each(|(family, name, bytes, side, kind)| {
         let full = bytes.len() <= (if thorough { 700 } else { 360 });
         if *side == 0 {
